@@ -478,7 +478,7 @@ def gen(rng, tier):
     cp = os.path.join(vlib.VERIF, "corpus", "C05", "ops.txt")
     if os.path.exists(cp):
         ops += [l.strip() for l in open(cp) if l.strip() and not l.startswith("#")]
-    npen, nal, nbig = (4000, 800, 50) if tier == "quick" else (30000, 6000, 500)
+    npen, nal, nbig = (4000, 800, 50) if tier == "quick" else (24000, 5000, 400)
     r1 = rng.fork()
     for _ in range(npen):
         ops.append(gen_pen(r1))
